@@ -297,10 +297,12 @@ CHECKS = {
             "documented ranges + optima, exhaustive bit strings <= 9/12 bits, recording wrapped functions, the three moving-peaks scenarios through 50 "
             "changes on a recorded tape, worlds of 1-3 MovingPeaks objects built from one shared pfunc list / scenario dictionary through interleaved histories, "
             "decorator setter histories with fresh / re-used / in-place refilled argument objects, and the quality indicators of benchmarks.tools; an independent numpy/Fraction transcription of every formula and the front/decorator/moving-peaks clauses are the oracle.  "
-            "Translator tie (second, tighter link between model and source): on every run harness/py2lean.py re-reads deap/benchmarks/{__init__,gp,movingpeaks,binary}.py, renders 45 functions "
-            "(all 32 real-valued functions of __init__.py except rand, the 8 gp targets, cone / sphere / function1, trap / inv_trap) as Lean definitions Gen.<f> polymorphic in RealLike, and the kernel re-checks "
-            "the committed theorems Gen.<f>_eq_model (48: over R the regenerated definition equals the hand-written model on ALL inputs, `none` = the inputs the code rejects; DTLZ1-7 for every "
-            "objective count >= 1 resp. >= 2, shekel for every a, c) and Gen.<f>_eq_model_poly (23: equal as terms at every scalar, which pins the operation order the Float correspondence uses); "
+            "Translator tie (second, tighter link between model and source): on every run harness/py2lean.py re-reads deap/benchmarks/{__init__,gp,movingpeaks,binary,tools}.py, renders 65 functions / methods "
+            "(all 33 functions of __init__.py incl. rand on its tape, the 8 gp targets, cone / sphere / function1, MovingPeaks.__call__(count=False) / globalMaximum / maximums / offlineError as functions of the object's fields, "
+            "trap / inv_trap / chuang_f1-3 / royal_road1 / royal_road2 (the while loop with its iteration bound order^2+1 proved) / bin2float's decoding, translate / scale __init__ / __call__ / setter, bound._clip/_wrap/_mirror) "
+            "as Lean definitions Gen.<f> polymorphic in RealLike, and the kernel re-checks "
+            "the committed theorems Gen.<f>_eq_model (over R resp. on all bit lists the regenerated definition equals the hand-written model on ALL inputs, `none` = the inputs the code rejects; DTLZ1-7 for every "
+            "objective count >= 1 resp. >= 2, shekel for every a, c, royal_road1/2 and bin2float for every order / nbits) and Gen.<f>_eq_model_poly (equal as terms at every scalar, which pins the operation order the Float correspondence uses), 102 theorems in all; "
             "any change of a translated formula - below the 1e-9 tolerance or outside the sampled region alike - breaks a proof obligation before an input is sampled.",
             TB + "partial: theorems are over the reals/rationals; equality of each float function with its definition is a 1e-9 tolerance correspondence "
             "(IEEE rounding, libm and CPython's compensated sum are not modelled); optima documented to a few decimals (schwefel, three himmelblau minima, "
@@ -308,8 +310,9 @@ CHECKS = {
             "instance independence is a theorem of the value-semantics model, the absence of shared mutable state in the implementation is checked by the mpworld stream, not proved; "
             "the quality indicators, globalMaximum / maximums / offlineError are outside the statement and covered by model-vs-implementation comparison only; "
             "translator tie: the rendering rules and the prelude of harness/py2lean.py / Core/GenPrelude.lean are trusted, parameters are typed by a signature table (individual = list of floats: a change that only "
-            "matters for another representation, e.g. numpy `+`, is invisible to it), exceptions of float operations are not rendered, and rand, the chuang / royal-road functions, bin2float, the decorator classes, "
-            "MovingPeaks and the quality indicators are outside the sub-language (refused, listed per run in evidence/C20.translated.json) - they stay tied by correspondence only.",
+            "matters for another representation, e.g. numpy `+`, is invisible to it), exceptions of float operations are not rendered, the binary numeral rule covers 0/1 lists only, object fields are values (aliasing is not rendered), "
+            "and MovingPeaks.__init__ / changePeaks / the count=True bookkeeping of __call__, rotate, noise, bound.__init__/__call__ and the quality indicators are outside the sub-language (refused, listed per run in "
+            "evidence/C20.translated.json) - they stay tied by correspondence only.",
             "Lean 4 proofs over published-definition models + tolerance correspondence (Float instance) + independent reference-formula oracle "
             "+ translator tie (definitions regenerated from source, kernel-checked equal to the model)"),
     "C08": ("full",
